@@ -76,7 +76,8 @@ fn gen_name(rng: &mut Rng, used: &mut Vec<(usize, Vec<u16>)>) -> String {
 fn gen_tree(rng: &mut Rng, depth: u32, budget: &mut i32) -> Vec<Node> {
     let mut kids = Vec::new();
     let mut used = Vec::new();
-    let n = if depth == 0 { 1 + rng.below(7) } else { rng.below(5) } as usize;
+    let wide = depth == 0 && rng.chance(1, 3);
+    let n = if depth == 0 { 1 + rng.below(if wide { 18 } else { 7 }) } else { rng.below(5) } as usize;
     for _ in 0..n {
         if *budget <= 0 {
             break;
@@ -324,10 +325,28 @@ pub fn synthesize_with(rng: &mut Rng, v: Version, root_kids: &[Node], root_meta:
         while (1usize << (full + 1)) - 1 <= n {
             full += 1;
         }
-        if rng.chance(1, 2) {
-            build_rb_by_insertion(rng, &sorted, ents)
-        } else {
-            build_rb(&sorted, ents, 0, full)
+        match rng.below(3) {
+            0 => build_rb_by_insertion(rng, &sorted, ents),
+            1 => build_rb(&sorted, ents, 0, full),
+            _ => {
+                // balanced shape, levels coloured alternately from the bottom: the incomplete
+                // last level red, the level above black, the next red, ... and the root black.
+                // Red nodes then occur as LEFT and as RIGHT children at several depths (e.g. red
+                // P, black N = P.left, red R = N.right), which neither of the other two shapes has.
+                let root = build_rb(&sorted, ents, 0, full);
+                fn recolour(ents: &mut Vec<Ent>, id: u32, depth: u32, full: u32) {
+                    if id == NOSTREAM {
+                        return;
+                    }
+                    let (l, r) = (ents[id as usize].left, ents[id as usize].right);
+                    let red = if depth >= full { true } else { depth > 0 && (full - depth) % 2 == 0 };
+                    ents[id as usize].color = if red { 0 } else { 1 };
+                    recolour(ents, l, depth + 1, full);
+                    recolour(ents, r, depth + 1, full);
+                }
+                recolour(ents, root, 0, full);
+                root
+            }
         }
     }
     let root_child = place(rng, root_kids, &mut ents, &mut free_slots, sl, &mut big, &mut small, &mut datas);
@@ -574,7 +593,7 @@ pub fn run(seed: u64, count: usize, out: &str) -> Report {
         // mini stream ending in free mini sectors most of the time
         let nearly_full = rng.chance(1, 8);
         let v = if nearly_full || rng.chance(3, 5) { Version::V3 } else { Version::V4 };
-        let mut budget = 14;
+        let mut budget = 22;
         let kids = if nearly_full {
             let mut used = Vec::new();
             let target = 108 + rng.below(18) as usize; // mini sectors
